@@ -789,4 +789,25 @@ theorem C14_rebuilt (ctx : List Event) (x : Pub) (A : Bytes) (lrs : List (Bytes 
       (∀ h ∈ rest, h1 <+: h ∧ h1.length < h.length) :=
   NonceThm.rngHistories_first_two ctx x A lrs a1 b
 
+open Model in
+/-- **C01 / C03 (a batch of honest proofs, as coded, is accepted).** If every member of a chunk satisfies the reference
+    relation — in particular if every member is an honest proof (`C01_spec_complete`) — the chunk's single multiscalar
+    multiplication over the lists as coded is the identity, whatever the weights, aggregation factors and capacities. -/
+theorem C01_chunk_accepts (ms : List (MemberData F M)) (G H : ℕ → M) (hb : M) (Gb : ℕ → M) (n t maxN extra : ℕ)
+    (hshare : ∀ x ∈ ms, x.I.G = G ∧ x.I.H = H ∧ x.I.hb = hb ∧ x.I.Gb = Gb ∧ x.I.n = n ∧ x.I.t = t)
+    (hsize : ∀ x ∈ ms, x.I.n * x.I.m ≤ maxN) (hok : ∀ x ∈ ms, x.ok)
+    (hvalid : ∀ x ∈ ms, Model.specResidual x.I x.π x.y x.z x.es x.e = 0) :
+    msmList (staticScalars (accumulate maxN (ms.map (fun x => x.scalars.gi)))
+                           (accumulate maxN (ms.map (fun x => x.scalars.hi))) (2 * extra))
+        (interleaveL ((List.range (maxN + extra)).map G) ((List.range (maxN + extra)).map H))
+      + msmList ((ms.map (fun x => x.scalars.dyn)).flatten ++
+                  (accumulate t (ms.map (fun x => x.scalars.gb)) ++ [(ms.map (fun x => x.scalars.hb)).sum]))
+                ((ms.map (fun x => proofPoints x.I.m x.I.V x.π)).flatten ++ ((List.range t).map Gb ++ [hb]))
+      = 0 := by
+  rw [C03_chunk_is_weighted_sum ms G H hb Gb n t maxN extra hshare hsize hok]
+  apply List.sum_eq_zero
+  intro v hv
+  obtain ⟨x, hx, rfl⟩ := List.mem_map.mp hv
+  rw [hvalid x hx, smul_zero]
+
 end Bpp
